@@ -505,6 +505,14 @@ class EIG(BaseRoutine):
             logger.error('No dynamic model. Eig analysis will not continue.')
             status = False
 
+        if system.TDS.test_ok is False:
+            logger.error('Initialization of dynamic models failed. Eig analysis will not continue.')
+            status = False
+
+        if system.TDS.busted:
+            logger.error('Time-domain simulation was terminated by an error. Eig analysis will not continue.')
+            status = False
+
         return status
 
     @check_conn_before_init
